@@ -12,7 +12,7 @@ UNI = 0x110000
 G1 = "start::Top: x=item y=[item] $ ;\nitem::Item: /[ab]/ ;\n"
 G2 = "start: 'a' 'B' $ ;\n"
 G3 = "start: e $ ;\ne: e '+' t | t ;\nt: /[0-9]/ ;\n"
-BATTERY = ['a', 'a b', 'A', 'a B', 'ab', '1+2', '', 'aB']
+BATTERY = ['a', 'a b', 'A', 'a B', 'ab', '1+2', '', 'aB', '!']      # (ends with a text every grammar of the pool rejects: the last call of each battery fails)
 
 
 class SemA:
@@ -53,7 +53,24 @@ def call_pool():
     import hashlib
     import tatsu
     sa, sb = SemA(), SemB()
+    shared = {}
+
+    def shared_gen():
+        # ONE generated-parser object and ONE model object reused by every call of the history
+        if 'gen' not in shared:
+            shared['gen'] = _gen(G1)
+        return shared['gen']
+
+    def shared_model():
+        if 'model' not in shared:
+            shared['model'] = tatsu.compile(G1, name='Shared')
+        return shared['model']
     pool = {
+        'sharedgen_plain': lambda: observe(shared_gen().parse),
+        'sharedgen_start_item': lambda: observe(lambda t: shared_gen().parse(t, start='item')),
+        'sharedgen_nows_ignorecase': lambda: observe(lambda t: shared_gen().parse(t, whitespace='', ignorecase=True)),
+        'sharedmodel_plain': lambda: observe(shared_model().parse),
+        'sharedmodel_start_item_parseinfo': lambda: observe(lambda t: shared_model().parse(t, start='item', parseinfo=True)),
         'compile_g1': lambda: observe(tatsu.compile(G1).parse),
         'compile_g1_asmodel': lambda: observe(tatsu.compile(G1, asmodel=True).parse),
         'compile_g1_semA': lambda: observe(tatsu.compile(G1, semantics=sa).parse),
@@ -79,7 +96,7 @@ def _gen(g):
     return ns['HParser']()
 
 
-POOL_NAMES = ['compile_g1', 'compile_g1_asmodel', 'compile_g1_semA', 'compile_g1_semB', 'compile_g1_named', 'compile_g2', 'compile_g2_ignorecase', 'compile_g2_noguard',
+POOL_NAMES = ['sharedgen_plain', 'sharedgen_start_item', 'sharedgen_nows_ignorecase', 'sharedmodel_plain', 'sharedmodel_start_item_parseinfo', 'compile_g1', 'compile_g1_asmodel', 'compile_g1_semA', 'compile_g1_semB', 'compile_g1_named', 'compile_g2', 'compile_g2_ignorecase', 'compile_g2_noguard',
               'parse_g2_ignorecase', 'model_parse_start_item', 'compile_g3', 'source_g1', 'generated_g2', 'failed_then_good_g3']
 
 
@@ -191,9 +208,16 @@ def plan(tier, seed):
     n = len(POOL_NAMES)
     # histories of k calls followed by the probed call; split by the first call(s) to bound each obligation
     if k == 2:
+        # quick: every history of one call, and every history of two calls that starts with a call on a shared parser/model object or with a
+        # model-building compile (the calls that leave state behind); thorough: every history of three calls
         for first in range(n):
-            obs.append(Ob(name=f'H2_after_{POOL_NAMES[first]}', factory='vt.props.c10:make_history', spec={'k': 2, 'program': POOL_NAMES[first]},
-                          params=[('h0', first, first + 1), ('h1', 0, n), ('probe', 0, n)], budget=1200, group='history', require_tags=('same-as-fresh',)))
+            two = POOL_NAMES[first].startswith('shared') or 'asmodel' in POOL_NAMES[first]
+            if two:
+                obs.append(Ob(name=f'H2_after_{POOL_NAMES[first]}', factory='vt.props.c10:make_history', spec={'k': 2, 'program': POOL_NAMES[first]},
+                              params=[('h0', first, first + 1), ('h1', 0, n), ('probe', 0, n)], budget=1200, group='history', require_tags=('same-as-fresh',)))
+            else:
+                obs.append(Ob(name=f'H1_after_{POOL_NAMES[first]}', factory='vt.props.c10:make_history', spec={'k': 1, 'program': POOL_NAMES[first]},
+                              params=[('h0', first, first + 1), ('probe', 0, n)], budget=600, group='history', require_tags=('same-as-fresh',)))
     else:
         for first in range(n):
             for second in range(n):
@@ -215,8 +239,8 @@ def plan(tier, seed):
                        'and after a parse of n symbolic code points (symbolic execution, all texts).',
         'functions_encoded': ['tatsu.api.api:compile/parse/to_python_sourcecode (compile cache)', 'tatsu.peg.base:Grammar.parse/new_parse_config/optimized', 'tatsu.contexts.core:find_cached_semantic_action',
                               'tatsu.util.typetools:BoundCallable._BIND_CACHE', 'tatsu.objectmodel.synth:synthesize registry', 'tatsu.config:ParserConfig.override', 'tatsu.contexts.engine:ParserEngine.bound (config restore)'],
-        'bounds': f'all histories of length {k} over a pool of {len(POOL_NAMES)} calls x every probed call; non-mutation for 4 (grammar, settings) pairs and texts of 2..{3 if tier == "quick" else 4} code points',
+        'bounds': f'histories of up to {k} calls (quick: all of length 1, and of length 2 after the 6 state-leaving calls; thorough: all of length 3) over a pool of {len(POOL_NAMES)} calls x every probed call; non-mutation for 4 (grammar, settings) pairs and texts of 2..{3 if tier == "quick" else 4} code points',
         'outside': 'THREAD SCHEDULES: CrossHair executes one thread and no packaged engine interleaves Python threads; the claim is restricted to sequential histories plus the '
                    'non-mutation invariant (which is what makes sharing a compiled model between threads safe). Longer histories; other grammars.',
-        'assumptions': ['the fresh-interpreter observable is the oracle', 'the battery of 8 texts distinguishes the configurations of the pool'],
+        'assumptions': ['the fresh-interpreter observable is the oracle', 'the battery of 9 texts distinguishes the configurations of the pool'],
     }
